@@ -154,6 +154,21 @@ fn session(seed: u64, nreq: usize, out: &mut Out) {
         }).unwrap()
     };
 
+    // readers that do nothing but take snapshots in a tight loop: a replacement has to get through while the lock is
+    // almost always read-held (they log nothing, so they do not exist for the specification)
+    let noise: Vec<_> = (0..3).map(|i| {
+        let (running, server) = (running.clone(), server.clone());
+        std::thread::Builder::new().name(format!("noise{}", i)).spawn(move || {
+            let mut n = 0u64;
+            while running.load(Ordering::SeqCst) {
+                let c = server.catalog();
+                let k = server.tsig_keys();
+                n = n.wrapping_add(Arc::strong_count(&c) as u64 + k.len() as u64);
+            }
+            n
+        }).unwrap()
+    }).collect();
+
     let mut handles = Vec::new();
     for t in 0..4u64 {
         let (server, push, kcurrent) = (server.clone(), push.clone(), kcurrent.clone());
@@ -190,6 +205,7 @@ fn session(seed: u64, nreq: usize, out: &mut Out) {
     for h in handles { h.join().unwrap(); }
     running.store(false, Ordering::SeqCst);
     swapper.join().unwrap();
+    for h in noise { h.join().unwrap(); }
     // after the last replacement has returned, a request must use the final generations
     {
         let q = Query { id: 7, flags: 0, qname: w("example.test."), qtype: 15, qclass: 1 };
